@@ -155,7 +155,7 @@ func vxHexVal(b byte) (int, bool) {
 // escapes: "\" + hex digits (1-6) + optional white space, or "\" + any other code point;
 // the escape consumes exactly that much and yields that code point.
 func VxH_C06_escape() {
-	n := vx.Choose("n", 3+3*vx.Tier())
+	n := vx.Choose("n", 3+2*vx.Tier())
 	rest := vx.Bytes("s", n)
 	vx.Assume(utf8.Valid(rest))
 	for i := 0; i < n; i++ {
